@@ -1750,15 +1750,15 @@ class Parameter(_ParameterBase):
                 _old = self.default
                 self.default = val
             elif not obj._param__private.initialized:
-                _old = obj._param__private.values.get(self.name, self.default)
+                _old = self._shown(obj)
                 obj._param__private.values[self.name] = val
             elif obj._param__private.unlocked and self.name in obj._param__private.unlocked_params:
                 # inside edit_constant(obj), one of the constants it found
                 # (not one that was made constant since)
-                _old = obj._param__private.values.get(self.name, self.default)
+                _old = self._shown(obj)
                 obj._param__private.values[self.name] = val
             else:
-                _old = obj._param__private.values.get(self.name, self.default)
+                _old = self._shown(obj)
                 if val is not _old:
                     raise TypeError("Constant parameter '%s' cannot be modified" % name)
         else:
@@ -1771,7 +1771,7 @@ class Parameter(_ParameterBase):
                     obj._param__private = _InstancePrivate(
                         explicit_no_refs=type(obj)._param__private.explicit_no_refs
                     )
-                _old = obj._param__private.values.get(name, self.default)
+                _old = self._shown(obj)
                 obj._param__private.values[name] = val
         self._post_setter(obj, val)
 
@@ -1829,6 +1829,18 @@ class Parameter(_ParameterBase):
         if not obj.param._BATCH_WATCH:
             obj.param._batch_call_watchers()
 
+    def _shown(self, obj):
+        """
+        What obj shows for this parameter, nothing being computed: the value
+        it holds, else the default of its class (this may be a Parameter
+        object of the instance, whose own default dates from its creation).
+        """
+        values = obj._param__private.values
+        if self.name in values:
+            return values[self.name]
+        governing = type(obj).param._cls_parameters.get(self.name)
+        return self.default if governing is None else governing.default
+
     def _validate_settable(self, obj, val, ref=None):
         """
         Raise if this read-only or constant Parameter cannot be set to val
@@ -1841,7 +1853,7 @@ class Parameter(_ParameterBase):
         if self.constant and private.initialized and not (private.unlocked and self.name in private.unlocked_params):
             # A reference would keep rebinding the constant whenever its
             # source changes, whatever it resolves to at the moment
-            if ref is not None or val is not obj._param__private.values.get(self.name, self.default):
+            if ref is not None or val is not self._shown(obj):
                 raise TypeError("Constant parameter '%s' cannot be modified" % self.name)
 
     def _validate_value(self, value, allow_None):
